@@ -156,7 +156,7 @@ fn collect_rows(y: &YamlElement, out: &mut Vec<BTreeMap<String, String>>) {
         YamlElement::Array(v) => v.iter().for_each(|x| collect_rows(x, out)),
         YamlElement::Subtree(m) => {
             let flat: BTreeMap<String, String> = m.iter().filter_map(|(k, v)| if let YamlElement::String(s) = v { Some((k.clone(), s.clone())) } else { None }).collect();
-            if flat.contains_key("Operator") || flat.contains_key("Final") {
+            if flat.contains_key("Operator") || flat.contains_key("Final") || flat.contains_key("Failure") || flat.contains_key("Throw") {
                 out.push(flat);
             }
             m.values().for_each(|x| collect_rows(x, out));
@@ -254,6 +254,28 @@ fn judge(out: &mut Out, id: &str, prog: &V, env: &V, source: Option<&str>, symbo
                     "tree": tree.iter().map(|m| yaml_to_json(&YamlElement::Subtree(m.clone()))).collect::<Vec<_>>(), "consensus": truth.show()});
                 CASES.with(|c| c.borrow_mut().push(rec.to_string()));
             }
+            // the hierarchical view must end the same way: a Final equal to the consensus value, or a failure entry
+            // every frame reports its own result as "Final"; the run's result is the last one in document order (outermost frame)
+            let tree_final = rows.iter().rev().find_map(|r| r.get("Final").cloned());
+            let tree_fails = rows.iter().any(|r| r.contains_key("Failure") || r.contains_key("Throw"));
+            match &truth {
+                Outcome::Val(v) => {
+                    if tree_fails || !tree_final.as_ref().map(|f| text_to_v(f).map(|x| x == *v).unwrap_or(false)).unwrap_or(false) {
+                        ok = false;
+                        out.violation(json!({"kind":"tree_view_final_differs_from_consensus","engine":"c12","tree_final":tree_final,"tree_has_failure_entry":tree_fails,"consensus":v.show(),"ctx":ctx}));
+                    }
+                }
+                _ => {
+                    if !tree_fails {
+                        ok = false;
+                        // listed finding: HierarchialRunner only keeps the failure row when the failing step belongs to the
+                        // outermost frame; attributed when the plain view of the same run does end in a failure entry
+                        let plain_fails = last.contains_key("Failure") || last.contains_key("Throw");
+                        let sig = if plain_fails && tree_final.is_none() { Some("cldb-tree:failure-entry-missing") } else { None };
+                        out.violation(json!({"kind":"tree_view_has_no_failure_entry_though_consensus_fails","engine":"c12","sig":sig,"tree_final":tree_final,"consensus":truth.show(),"ctx":ctx}));
+                    }
+                }
+            }
             let ht = Trace { rows, actual: vec![], i_args: t.i_args.clone(), ended: true, final_value: None };
             ok &= check_rows(out, &ctx, &ht, "tree");
         }
@@ -308,6 +330,12 @@ pub fn run(cfg: &Cfg) -> i32 {
                 let syms = if k == 0 { c.symbols.clone() } else { HashMap::new() };
                 judge(&mut out, &id, &c.prog, a, Some(&text), &syms, "compiled_programs");
             }
+            // ill-fitting arguments, with the symbol table: failures inside named function frames
+            if let Some(a) = case.args.first() {
+                let mut mrng = Rng::derive(cfg.seed, 1212, i as u64);
+                let bad = mutate_args(&mut mrng, a);
+                judge(&mut out, &id, &c.prog, &bad, Some(&text), &c.symbols, "compiled_programs_ill_fitting_arguments");
+            }
         }
         out.end(&id);
     }
@@ -339,6 +367,13 @@ pub fn run(cfg: &Cfg) -> i32 {
         };
         let env = env_for_paths(&paths, 1);
         judge(&mut out, &format!("arity-{i}"), &prog, &env, None, &HashMap::new(), "raw_wrong_arity");
+    }
+    // pinned witness: failure inside a named function frame (tree view)
+    if cfg.shard == 0 {
+        let text = "(mod (X) (include *standard-cl-21*) (defun f (A) (+ A (q 1 2))) (f X))";
+        if let Ok(c) = compile_cli_modern(text, None, &[], false) {
+            judge(&mut out, "pinned-failure-in-frame", &c.prog, &V::list(&[V::int(5)]), Some(text), &c.symbols, "pinned");
+        }
     }
     // pinned witness of the listed finding
     if cfg.shard == 0 {
